@@ -613,3 +613,18 @@ Proof.
     revert Hin. clear. intros Hin. apply (in_map fst) in Hin. cbn [fst] in Hin.
     apply str_in_spec in Hin. vm_compute in Hin. discriminate.
 Qed.
+
+(* ---- what is interpolated into the string literals of the assertion messages ---- *)
+Lemma msg_safe_spec sd : msg_literal_safe sd = true -> forall e, In e (sd_msg_exprs sd) -> In e safe_msg_exprs.
+Proof.
+  unfold msg_literal_safe. rewrite forallb_forall. intros H e He. apply str_in_spec. apply H. assumption.
+Qed.
+
+Lemma all_messages_literal_safe :
+  forallb msg_literal_safe [c_support_side; c_type_side; cpp_support_side; cpp_type_side] = true.
+Proof. vm_compute. reflexivity. Qed.
+
+(* an option value is never among the literal-safe expressions *)
+Lemma value_not_literal_safe :
+  str_in [118; 97; 108; 117; 101] safe_msg_exprs = false /\ str_in sav_expr safe_msg_exprs = false.
+Proof. vm_compute. split; reflexivity. Qed.
